@@ -127,7 +127,8 @@ def main():
             fs_list.sort(key=lambda x: [c.encode() for c in x[0]])
             fs_coq = ["(%s, %s)" % (cP(c), k) for c, k in fs_list]
             fs_term = "[" + "; ".join(fs_coq) + "]"
-            for req_path in reqs:
+            first_obs = {}
+            for req_path in list(reqs) + list(reqs):
                 try:
                     req = Request.blank(req_path or "/")
                     if req_path == "":
@@ -155,7 +156,7 @@ def main():
                 #      templates, python modules ...)
                 for ev, p in events:
                     ap = os.path.abspath(p)
-                    if ap.startswith(top + "/") and not (ap == root or ap.startswith(root + "/")):
+                    if (ap == top or ap.startswith(top + "/")) and not (ap == root or ap.startswith(root + "/")):
                         direct.append({"law": "only paths inside the data directory are read, listed or opened", "root": root,
                                        "request": req_path, "touched": ap, "event": ev, "status": status})
                         break
@@ -167,6 +168,16 @@ def main():
                 rcomps = [c for c in resolved.split("/") if c]
                 resolve_cases.append("(%s, %s, %s)" % (cP(root_comps), cB(pinfo), cP(rcomps)))
                 if exc == "unsupported":
+                    # a freshly started server must refuse it, too: routing is decided by the disk, not by what was served before
+                    try:
+                        fresh = Request.blank(req_path or "/").get_response(DapServer(root)).status_int
+                    except ExtensionNotSupportedError:
+                        fresh = "unsupported"
+                    except Exception as e:  # noqa
+                        fresh = type(e).__name__
+                    if fresh != "unsupported":
+                        direct.append({"law": "the same request is routed the same way whatever the server answered before", "root": root,
+                                       "request": req_path, "long_lived_server": "ExtensionNotSupportedError", "fresh_server": fresh})
                     base = os.path.splitext(resolved)[0]
                     obs = "(Unsupported (P %s))" % cP([c for c in base.split("/") if c])
                 elif exc is not None:
@@ -195,6 +206,11 @@ def main():
                     obs = None
                     direct.append({"law": "response classifiable as file / listing / DAP response / refusal", "request": req_path,
                                    "status": status, "ctype": ctype, "body": body[:60].decode("latin-1")})
+                # routing is a function of the request and the disk: the same request answered differently later on the same server
+                if req_path in first_obs and first_obs[req_path] != (obs, status) and obs is not None:
+                    direct.append({"law": "the same request is routed the same way whatever the server answered before", "root": root,
+                                   "request": req_path, "first": repr(first_obs[req_path])[:200], "later": repr((obs, status))[:200]})
+                first_obs.setdefault(req_path, (obs, status))
                 if obs is not None:
                     key = obs.split(" ")[0].strip("(")
                     dist[key] = dist.get(key, 0) + 1
